@@ -464,6 +464,10 @@ class MultiFit(FitBase):
                         )
             error_object.reference = _reference_value
 
+        if isinstance(error_object, MatrixGaussianError):
+            # can only be checked once the reference of a relative error is known
+            error_object.check_cov_mat_symmetry()
+
         if name in self._shared_error_dicts:
             raise ValueError("Error with name=%s already exists!" % name)
         if name is None:
@@ -787,7 +791,6 @@ class MultiFit(FitBase):
                 relative=relative,
                 fit_indices=fits,
             )
-            _matrix_error.check_cov_mat_symmetry()
             return self._add_error_object(error_object=_matrix_error, reference=reference, name=name, axis=axis)
 
     def add_error(
